@@ -57,6 +57,12 @@ CHECKS = {
               "(never unknown, never captured); dump appends the tag under the configured key; model tied to the code over families, "
               "tag keys, argument rotations, container positions, and a load-before-any-dump stream"),
         technique='Lean 4 proof over a hand model + differential correspondence', ref='4 C13'),
+    'C14': dict(
+        text=("Lean theorems: every failing load of a v1 class — any JSON input, any field loaders — ends in a library error (proved by "
+              "induction over the field list + constructor step), innermost attribution rule, error lattice regenerated from errors.py; "
+              "model tied to the code on a malformed stream comparing (type, class_name, field_name / missing / unknown); oracle: "
+              "isinstance JSONWizardError, str(e) returns, independent path-based attribution for scalar positions"),
+        technique='Lean 4 proof over a hand model + generated lattice + differential correspondence', ref='4 C14'),
     'C08': dict(
         text=("Lean theorems about the model of string_conv / object_path (casing round trips for canonical snake names, "
               "tokenizer facts), model tied to the code by exhaustive small-alphabet correspondence plus end-to-end alias/path checks"),
